@@ -10,6 +10,13 @@ Tie (harness bin `typecheck`, three typecheck runs per module, then the module i
   * DIRECT ORACLE on the implementation: every binding the checker typed (TypeMap of the top-level defs, Interface of the
     module) is tested at run time with `isinstance(value, <rendered type>)` (probe(..) calls inserted after each binding;
     exported names after the run) unless the solver flagged non-convergence;
+  * MODULE-LEVEL FAMILY (tools/gen/typed.py module_level, module_level_table): the Interface comes from the partial evaluator
+    of typing/fill_types_for_lint.rs (GlobalTypesBuilder), not from the solver - exported variables bound once, re-bound
+    straight-line, re-bound inside top-level if / else / for bodies (same kind, different kind, body run or skipped), bound
+    only inside a branch, unpacking targets, augmented assignment, loop variables, (re)defined defs, aliases, values of all
+    kinds (str tuple bool None def builtin: definite; int list dict struct lambda: Any); every exported binding with a
+    definite unflagged Interface type gets the isinstance oracle after the run (function types: typing.Callable), and the
+    defs that use those globals according to the value they finally hold must get no diagnostic;
   * model: for the programs wrapped in one function the Coq model (vm_compute, Typing/Cases.v) must assign the same
     type to every binding it models, and the same approximation flag.
 The Python side never decides soundness by itself: membership is answered by the implementation's own isinstance."""
@@ -182,6 +189,32 @@ def weird_cases(rng, n):
     return [{"src": s, "run": False, "kind": "weird", "id": "weird%d" % i} for i, s in enumerate(out)]
 
 
+def modlevel_cases(ctx, n_random, n_table):
+    """The module-level family (see typed.module_level): the systematic table (sampled in the quick tier) + random modules."""
+    table = typed.module_level_table()
+    if n_table < len(table):
+        # always keep the rows whose final value has another kind than the first binding, sample the rest
+        diff = [t for t in table if t["diff"]]
+        rest = [t for t in table if not t["diff"]]
+        ctx.rng.shuffle(diff)
+        ctx.rng.shuffle(rest)
+        table = diff[:max(n_table * 3 // 4, 1)] + rest[:max(n_table // 4, 1)]
+    out, meta = [], {"modlevel_table_rows": len(table), "modlevel_random": n_random, "modlevel_rebind_diff": 0, "modlevel_uses": 0}
+    for t in table:
+        out.append({"src": t["src"], "run": True, "kind": "modlevel-table", "welltyped": True, "id": "ml:" + t["id"], "form": t["id"]})
+        meta["modlevel_rebind_diff"] += int(t["diff"])
+    for _ in range(n_random):
+        seed = ctx.rng.getrandbits(48)
+        import random as _r
+        m = typed.module_level(_r.Random(seed))
+        out.append({"src": m["src"], "run": True, "kind": "modlevel", "welltyped": True, "id": "ml:s%d" % seed, "_vars": m["vars"]})
+        meta["modlevel_rebind_diff"] += m["rebind_diff"]
+        meta["modlevel_uses"] += m["uses"]
+        for k, v in m["shapes"].items():
+            meta["modlevel_shape_" + k] = meta.get("modlevel_shape_" + k, 0) + v
+    return out, meta
+
+
 def load_corpus():
     p = os.path.join(sv.ROOT, "corpus", PROP, "cases.jsonl")
     out = []
@@ -282,6 +315,11 @@ def classify_false_error(case, err):
     return "false-error:" + pat[:90], text
 
 
+def exported_ty_class(ty):
+    """Function types are long: classify them as `def`."""
+    return "def" if ty.startswith("def(") or ty == "function" else ty[:60]
+
+
 def strip(case):
     return {k: v for k, v in case.items() if not k.startswith("_")}
 
@@ -292,7 +330,7 @@ def evaluate(ctx, cases, tag="cases", model=True):
     ctx.log("harness ran %d modules (rc=%s)" % (len(cases), rc))
     failures, broken = [], []
     st = {"typechecked": 0, "parse_skipped": 0, "ran_ok": 0, "ran_failed": 0, "probe_values": 0, "bindings_tested": 0, "bindings_untestable": 0,
-          "exported_tested": 0, "flagged_modules": 0, "diagnostics_on_illtyped": 0, "illtyped": 0, "welltyped_checked": 0, "kinds": {},
+          "exported_tested": 0, "exported_definite_tested": 0, "exported_callable_tested": 0, "modlevel_ran_ok": 0, "flagged_modules": 0, "diagnostics_on_illtyped": 0, "illtyped": 0, "welltyped_checked": 0, "kinds": {},
           "types_seen": {}, "model_bindings_equal": 0, "model_bindings_unmodelled": 0, "model_programs": 0, "nontrivial": set()}
     if rc != 0:
         failures.append({"key": "harness-crash", "what": "typecheck harness exited with %s (a crash or hang of the checker kills the shard): %s" % (rc, log[-300:]),
@@ -324,6 +362,12 @@ def evaluate(ctx, cases, tag="cases", model=True):
         ran_ok = bool(run) and run["outcome"] == "ok"
         if run:
             st["ran_ok" if ran_ok else "ran_failed"] += 1
+        if c["kind"].startswith("modlevel"):
+            if ran_ok:
+                st["modlevel_ran_ok"] += 1
+            elif run:
+                # the family is well typed by construction AND must run: a module that fails is a generator bug
+                broken.append(("generator", "module-level family module %s does not run: %s" % (c["id"], json.dumps(run["outcome"])[:200])))
         if len(c["src"].splitlines()) >= 6:
             st["nontrivial"].add(c["src"])
         # silence on well-typed modules
@@ -365,8 +409,12 @@ def evaluate(ctx, cases, tag="cases", model=True):
                 for e in run.get("exported", []):
                     if e.get("checkable"):
                         st["exported_tested"] += 1
+                        if e["ty"] != "typing.Any":
+                            st["exported_definite_tested"] += 1
+                        if e.get("coarse"):
+                            st["exported_callable_tested"] += 1
                         if not e["ok"]:
-                            failures.append({"key": "unsound-exported:%s:%s" % (e["ty"], val_kind(e["value"])),
+                            failures.append({"key": "unsound-exported:%s:%s" % (exported_ty_class(e["ty"]), val_kind(e["value"])),
                                              "what": "module %s: Interface says `%s: %s` but after evaluation it holds %s" % (c["id"], e["name"], e["ty"], e["value"][:120]),
                                              "replay": {"case": strip(c), "exported": e}})
     if model:
@@ -449,7 +497,10 @@ def coverage(cases, st, meta):
         "modules_run": st["ran_ok"] + st["ran_failed"], "modules_run_to_completion": st["ran_ok"],
         "welltyped_modules_checked_for_silence": st["welltyped_checked"],
         "bindings_tested_by_isinstance": st["bindings_tested"], "probe_values": st["probe_values"], "bindings_with_untestable_rendering": st["bindings_untestable"],
-        "exported_bindings_tested": st["exported_tested"], "modules_flagged_nonconvergent": st["flagged_modules"],
+        "exported_bindings_tested": st["exported_tested"], "exported_bindings_with_definite_type_tested": st["exported_definite_tested"],
+        "exported_function_typed_bindings_tested_as_callable": st["exported_callable_tested"],
+        "module_level_family_modules_run_to_completion": st["modlevel_ran_ok"],
+        "modules_flagged_nonconvergent": st["flagged_modules"],
         "ill_typed_modules": st["illtyped"], "ill_typed_modules_with_diagnostics": st["diagnostics_on_illtyped"],
         "traces_validated_against_impl": st["model_bindings_equal"], "model_programs": st["model_programs"],
         "model_bindings_outside_fragment": st["model_bindings_unmodelled"],
@@ -468,7 +519,9 @@ def all_cases(ctx, deep=False):
     ill = ill_typed_cases(ctx, ctx.n(40, 1500) if not deep else 200)
     files = [] if deep else repo_sources(ctx, ctx.n(250, 100000))
     weird = [] if deep else weird_cases(ctx.rng, ctx.n(20, 400))
-    return corpus + fam + lc + gen + ill + files + weird, meta
+    ml, mlmeta = modlevel_cases(ctx, ctx.n(150, 6000) if not deep else 1500, ctx.n(260, 100000) if not deep else 100000)
+    meta.update(mlmeta)
+    return corpus + ml + fam + lc + gen + ill + files + weird, meta
 
 
 def correspond(ctx):
